@@ -137,6 +137,25 @@ def gen_cases(tier, seed):
             cases.append(("t%d" % i, ["P"], netfam.to_net(build(seq), kinds, rng, 0.15)))
             dist["transport"] = dist.get("transport", 0) + 1
     dist["random"] = nrand
+    # the same histories on a database with the newer strategy: a stale versioned write is accepted there (C19) and is a
+    # committed change like any other
+    nn = {"quick": 400, "thorough": 6000, "search": 300}[tier]
+    for i in range(nn):
+        seq = []
+        for _ in range(rng.randint(4, 20)):
+            r = rng.random()
+            key = rng.choice(keys)
+            if r < 0.2: seq.append(("c", rng.choice([2, 3]), "watch " + key))
+            elif r < 0.27: seq.append(("c", rng.choice([2, 3]), "unwatch " + key))
+            elif r < 0.3: seq.append(("d", rng.choice([2, 3])))
+            elif r < 0.45: seq.append(("c", 1, "set %s v%d" % (key, rng.randint(0, 9))))
+            elif r < 0.85: seq.append(("c", 1, "set-safe %s %d w%d%d" % (key, rng.choice([-1, 0, 0, 1, 1, 2, 3, 9]), rng.randint(0, 9), rng.randint(0, 9))))
+            elif r < 0.93: seq.append(("c", 1, "remove " + key))
+            else: seq.append(("c", 0, "replicate d1 %s %d r%d" % (key, rng.choice([-1, 0, 1]), rng.randint(0, 9))))
+        ops = build(seq)
+        ops = [C(0, "create-db d1 tok1 newer") if (o[0] == "cmd" and line_of(o) == "create-db d1 tok1") else o for o in ops]
+        cases.append(("n%d" % i, ["P"], ops))
+    dist["newer_strategy"] = nn
     return cases, dist
 
 
